@@ -185,6 +185,12 @@ func (a *archetype) Zero(index uint32, id ID) {
 		return
 	}
 	dst := unsafe.Add(lay.pointer, index*size)
+	if a.node.hasPointers.Get(id) {
+		// Typed clearing applies the write barriers, see archetype.move.
+		idx, _ := a.indices.Get(id.id)
+		reflect.NewAt(a.node.Types[idx], dst).Elem().SetZero()
+		return
+	}
 	a.copy(a.node.zeroPointer, dst, size)
 }
 
@@ -204,8 +210,8 @@ func (a *archetype) Set(index uint32, id ID, comp interface{}) unsafe.Pointer {
 	rValue := reflect.ValueOf(comp)
 
 	src := rValue.UnsafePointer()
-	a.copy(src, dst, size)
-	// The raw copy above hides from the compiler that everything the component references is stored on the heap.
+	a.move(id, src, dst, size)
+	// The copy above hides from the compiler that everything the component references is stored on the heap.
 	// Force it to escape, so that pointers inside the component never refer to the caller's stack.
 	escapes(comp)
 	return dst
